@@ -19,39 +19,58 @@ Definition jentries (es : list entry) : jv := JL (map jentry es).
 
 Definition file_names : list bytes := [bs "tcp"; bs "tcp6"; bs "udp"; bs "udp6"; bs "unix"].
 
+Definition jlog (l : list bytes) : jv := JL (map JB l).
+
 (* a kernel-shaped state: printed files, is the state in the theorems' domain, then per kind
-   [model; demanded entries] system-wide, and the same for the processes selected by index *)
-Definition run_state (v : variant) (le : bool) (st : kstate) (ks : list bytes) (sel : list (nat * list bytes)) : jv :=
+   [returned rows; add() sequence; files opened; demanded entries; demanded access log] system-wide,
+   and the same for the processes selected by index *)
+Definition run_state (v : variant) (le : bool) (o : ipv6_oracle) (st : kstate) (ks : list bytes)
+           (sel : list (nat * list bytes)) : jv :=
   let files := k_files le st in
+  let procs := to_procs (k_procs st) in
   JL [ JL (map (fun n => jopt JB (files n)) file_names);
-       jbool (wf_state st && files_text_safe le st);
-       JL (map (fun k => JL [ jv_outcome jrows (net_connections v le files (to_procs (k_procs st)) k);
-                              jentries (spec_sys k st) ]) ks);
+       jbool (wf_state st && files_text_safe le st && (o_ntop6 o || negb (o_supported o)));
+       JL (map (fun k => JL [ jv_outcome jrows (net_connections v le o files procs k);
+                              jv_outcome jrows (net_connections_adds v le o files procs k);
+                              jlog (net_log v le o files procs k);
+                              jentries (spec_sys k (restrict6 o st));
+                              jlog (spec_log k st) ]) ks);
        JL (map (fun s =>
                   match nth_error (k_procs st) (fst s) with
                   | Some p =>
-                    JL (map (fun k => JL [ jv_outcome jrows (proc_net_connections v le files (p_pid p) (to_listing p) k);
-                                           jentries (spec_proc p k st) ]) (snd s))
+                    JL (map (fun k => JL [ jv_outcome jrows (proc_net_connections v le o files (p_pid p) (to_listing p) k);
+                                           jv_outcome jrows (proc_net_connections_adds v le o files (p_pid p) (to_listing p) k);
+                                           jlog (proc_log v le o files (p_pid p) (to_listing p) k);
+                                           jentries (spec_proc p k (restrict6 o st));
+                                           jlog (spec_proc_log p k st) ]) (snd s))
                   | None => jnone
                   end) sel) ].
 
 (* arbitrary (possibly malformed) files and descriptor tables: model answers only *)
 Definition files_of (fs : list (bytes * bytes)) (n : bytes) : option bytes := assoc n fs.
-Definition run_raw (v : variant) (le : bool) (fs : list (bytes * bytes)) (procs : list (Z * listing))
+Definition run_raw (v : variant) (le : bool) (o : ipv6_oracle) (fs : list (bytes * bytes)) (procs : list (Z * listing))
            (ks : list bytes) (sel : list (nat * list bytes)) : jv :=
   let files := files_of fs in
-  JL [ JL (map (fun k => jv_outcome jrows (net_connections v le files procs k)) ks);
+  JL [ JL (map (fun k => JL [ jv_outcome jrows (net_connections v le o files procs k);
+                              jv_outcome jrows (net_connections_adds v le o files procs k);
+                              jlog (net_log v le o files procs k) ]) ks);
        JL (map (fun s =>
                   match nth_error procs (fst s) with
                   | Some (pid, ls) =>
-                    JL (map (fun k => jv_outcome jrows (proc_net_connections v le files pid ls k)) (snd s))
+                    JL (map (fun k => JL [ jv_outcome jrows (proc_net_connections v le o files pid ls k);
+                                           jv_outcome jrows (proc_net_connections_adds v le o files pid ls k);
+                                           jlog (proc_log v le o files pid ls k) ]) (snd s))
                   | None => jnone
                   end) sel) ].
 
 (* address decoding alone: printed text, model, demanded *)
-Definition run_addr (le : bool) (ip : ipaddr) (port : Z) : jv :=
+Definition jdres (d : dres) : jv :=
+  match d with DAddr a => JC "Val" [jaddr a] | DUnsupported => JC "Exc" [JC "_Ipv6UnsupportedError" []] end.
+Definition jdres_outcome (x : outcome dres) : jv :=
+  match x with Val d => jdres d | Exc e => JC "Exc" [JC (exn_name e) []] | OutOfModel => JC "OutOfModel" [] end.
+Definition run_addr (le : bool) (o : ipv6_oracle) (ip : ipaddr) (port : Z) : jv :=
   JL [ JB (k_addr le ip port);
-       jv_outcome jaddr (decode_address le (k_addr le ip port) (if is_v6 ip then AF_INET6 else AF_INET));
-       (if wf_ip ip && wf_port port then jaddr (spec_addr ip port) else jnone) ].
-Definition run_addr_raw (le : bool) (a : bytes) (family : Z) : jv :=
-  JL [ jv_outcome jaddr (decode_address le a family) ].
+       jdres_outcome (decode_address le o (k_addr le ip port) (if is_v6 ip then AF_INET6 else AF_INET));
+       (if wf_ip ip && wf_port port then jdres_outcome (addr_res o ip port) else jnone) ].
+Definition run_addr_raw (le : bool) (o : ipv6_oracle) (a : bytes) (family : Z) : jv :=
+  JL [ jdres_outcome (decode_address le o a family) ].
